@@ -1285,6 +1285,12 @@ def build_operator_operand_fixup(capture_error_state):
                     capture_error_state(True, f'Values: {left_op} {op} {right_op}')
                     return VALUE_ERROR
 
+        if (op == 'Pow' and isinstance(left_op, int) and
+                isinstance(right_op, int) and
+                right_op * left_op.bit_length() > 1024):
+            # the exact integer could exceed any excel number, use floats
+            left_op = float(left_op)
+
         try:
             if op == 'USub':
                 return PYTHON_AST_OPERATORS[op](right_op)
@@ -1296,6 +1302,9 @@ def build_operator_operand_fixup(capture_error_state):
         except TypeError:
             capture_error_state(True, f'Values: {left_op} {op} {right_op}')
             return VALUE_ERROR
+        except OverflowError:
+            capture_error_state(True, f'Values: {left_op} {op} {right_op}')
+            return NUM_ERROR
 
     return fixup
 
